@@ -20,7 +20,7 @@ CHECKS = {
    "SQLite only; comparison normalises auto-index names, unique-index origin, column order."),
  "C04": ("exploration",
    "exhaustive enumeration of all foreign-key digraphs up to a size bound x table splits, planned by the real MySQL/PostgreSQL planners and replayed from statement text by a reference catalogue",
-   "All directed graphs with self loops over n<=3 tables (thorough: also all 65536 graphs on 4 tables) x every split of the tables into kept/created/dropped x edge modes between kept tables x {MySQL, PostgreSQL} x plan modes: the change set comes from the real differ, the plan from the real planner; a reference catalogue replays the statements from their text and requires: a table exists before any foreign key pointing at it is declared, no table is dropped while a foreign key of another table points at it, every table is created/dropped at most once, the final catalogue equals the desired one, and the planner neither fails, panics nor hangs.",
+   "All directed graphs with self loops over n<=3 tables (thorough: also all 65536 graphs on 4 tables) x every split of the tables into kept/created/dropped x edge modes between kept tables x {MySQL, PostgreSQL} x plan modes: the change set comes from the real differ, the plan from the real planner (every change set is planned twice: identical plans required); a reference catalogue replays the statements from their text and requires: a table exists before any foreign key pointing at it is declared, no table is dropped while a foreign key of another table points at it, every table is created/dropped at most once, the final catalogue equals the desired one, and the planner neither fails, panics nor hangs.",
    "n=4 covers all splits with added kept-kept edges only (stated in evidence); random larger graphs are not claimed."),
  "C05": ("exploration",
    "bounded-exhaustive enumeration of (populated current, desired) pairs executed on a real SQLite engine; rows read before/after by an independent connection",
@@ -36,7 +36,7 @@ CHECKS = {
    "The schema shape is fixed (the strings and slots vary); random schemas are not claimed; CLI import is covered by the CLI-driven slice."),
  "C08": ("exploration",
    "bounded-exhaustive enumeration of all token strings up to a length bound and of all generated well-formed scripts, each scanned by the real Scanner and judged by an independent gap lexer / known split",
-   "Every string of <=4 (thorough <=5) tokens over a 26-token alphabet of scanner-relevant fragments x the 4 option sets the drivers use (plus a T-SQL-like set for totality) is scanned: no panic, no hang, and on success every statement text sits at its reported position, spans are disjoint and increasing, and everything between statements is accepted by a reference gap lexer (white space, comments, delimiter, DELIMITER/GO commands). All scripts of <=2 (thorough <=3) statements from 17 statement shapes x leads/separators/tails x 7 delimiter modes must scan to exactly the intended statements on the intended lines.",
+   "Every string of <=4 (thorough <=5) tokens over a 27-token alphabet of scanner-relevant fragments (incl. a multi-byte rune and non-ASCII white space) x the 4 option sets the drivers use (plus a T-SQL-like set for totality) is scanned: no panic, no hang, and on success every statement text sits at its reported position, spans are disjoint and increasing, and everything between statements is accepted by a reference gap lexer (white space, comments, delimiter, DELIMITER/GO commands). All scripts of <=2 (thorough <=3) statements from 17 statement shapes x leads/separators/tails x 7 delimiter modes must scan to exactly the intended statements on the intended lines.",
    "Arbitrary byte strings beyond the token alphabet/length bound and coverage-guided fuzzing are not claimed (sampling is a different family)."),
  "C09": ("fault_enumeration",
    "stateless deviation-bounded DFS over fault/crash choice points on the real migrate.Executor, judged by a reference executor model",
@@ -48,19 +48,19 @@ CHECKS = {
    "SQLite file engine only; kill = os.Exit at a hook (not a torn disk write - SQLite's journal recovery is trusted); the advisory lock of the killed process is assumed expired."),
  "C11": ("model_checking",
    "exhaustive enumeration of (directory, revision table, options) configurations on the real Executor.Pending/ExecuteN against an executable set-based reference model, plus breadth-first search over CLI operation histories (add/apply/set/fix/remove) on the real binary with the same model as oracle",
-   "Every directory over a universe of 4 (thorough: 5) versions (absent/migration/checkpoint) x every revision table (any subset applied, last optionally partial) x exec order x {none, allow-dirty, baseline=v} x {clean, dirty} is decided by the real Executor.Pending and compared - error class, out-of-order set and exact file list - with refPending written from the documented semantics; ExecuteN(n) for every n must run exactly the first n pending files and leave none of them pending. A BFS to depth 4 (thorough 5) over CLI histories {add file, add failing file, add out-of-order file, apply, apply 1, apply non-linear / linear-skip, set 2, set 4, fix, remove newest} on a real SQLite file checks in every reached state that `migrate status` reports the model's pending/out-of-order files for the actual revision rows, that `migrate apply [n]` executes exactly the statements the decision implies, and that nothing up to v is pending after `migrate set v`.",
+   "Every directory over a universe of 4 (thorough: 5) versions (absent/migration/checkpoint) x every revision table (any subset applied, last optionally partial, with or without a recorded error) x exec order x {none, allow-dirty, baseline=v} x {clean, dirty} is decided by the real Executor.Pending and compared - error class, out-of-order set and exact file list - with refPending written from the documented semantics; ExecuteN(n) for every n must run exactly the first n pending files and leave none of them pending. A BFS to depth 4 (thorough 5) over CLI histories {add file, add failing file, add checkpoint file, add out-of-order file, apply, apply 1, apply non-linear / linear-skip, set 2, set 4, fix, remove newest} on a real SQLite file checks in every reached state that `migrate status` reports the model's pending/out-of-order files for the actual revision rows, that `migrate apply [n]` executes exactly the statements the decision implies, and that nothing up to v is pending after `migrate set v`.",
    "Recording driver/store in process for the configuration sweep, SQLite file for the CLI BFS; fixed-width versions; cases the documentation does not define are counted, not judged."),
  "C12": ("model_checking",
    "exhaustive enumeration of (file, progress, edit) histories executed on the real migrate.Executor, judged by the prefix-equality rule",
-   "All files of n<=5 statements x every partial progress k (revision produced by a real failing run) x every single edit (thorough: every pair of edits for n<=4) x 2 directory layouts are re-hashed and re-run on the real Executor: a changed applied prefix must give HistoryChangedError, zero executed statements, untouched history and no panic; a changed tail must resume with exactly the new tail and leave the version done for a following Pending.",
-   "Recording driver/store in process; timestamps and operator version excluded from 'untouched'."),
+   "All files of n<=5 statements x every partial progress k (revision produced by a real failing run) x every single edit (thorough: every pair of edits for n<=4) x 2 directory layouts are re-hashed and re-run on the real Executor: a changed applied prefix must give HistoryChangedError, zero executed statements, untouched history and no panic; a changed tail must resume with exactly the new tail and leave the version done for a following Pending. A CLI slice repeats the rule on a real SQLite file: n in 2..4 x k x {no / `migrate set` on the partially applied version} x 6 edits, with the partial revision produced by the real `migrate apply --tx-mode none`; a panic of the CLI is a violation.",
+   "Recording driver/store in process, SQLite file for the CLI slice; timestamps and operator version excluded from 'untouched'."),
  "C13": ("fault_enumeration",
    "exhaustive enumeration of failing-statement positions x transaction modes x per-file directives x apply counts on the real CLI and a real SQLite file, judged by a reference model of each mode and by differential full dumps",
    "`migrate apply`: 5 (thorough 12) directory shapes x a really failing statement at every position x tx-mode file/all/none x txmode directives on the failing or preceding file x apply count: the journal rows written by the statements and the revision rows, read by our own connection, must equal what the mode promises; after repairing the file the full dump must equal that of a run that never failed. `--dry-run` of migrate apply from 5 reached states x modes x counts x baseline/allow-dirty and of schema apply must leave dump and directory byte-identical. `schema apply`: 3 hand-written and 24 generated scenarios (every subset of {add table, add column, NOT NULL rebuild, unique index, drop table} holding a change that fails on the data, including plans of a single multi-statement change) x {default, file, none, dry-run}: a plan failing midway must leave the database unchanged in the default and file modes.",
    "SQLite file engine only; statement failure = a statement the engine really rejects."),
  "C14": ("fault_enumeration",
    "exhaustive enumeration of dev-database commands x dev states x failing-statement positions on the real CLI with a SQLite file as dev database; dev dump and directory bytes compared before/after",
-   "Commands migrate diff / validate / lint --latest N and schema apply|diff|inspect with SQL (and HCL) sources x dev state {empty, table with rows, view only, thorough: table+trigger} x directory / schema-file shapes (creating tables, indexes, views and triggers) with a really failing statement at every position (and none): a non-empty dev database must be refused and left byte-identical; an empty one must be handed back with no tables, indexes, views or triggers whether the command succeeded or failed; the migration directory must not be written by a replay (migrate diff may add one file and refresh the sum on success).",
+   "Commands migrate diff / validate / lint --latest N and schema apply|diff|inspect with SQL (and HCL) sources x dev state {empty, table with rows, view only, thorough: table+trigger} x directory / schema-file shapes (creating tables, indexes, views and triggers) with, at every position (and nowhere), a statement the engine rejects or one it accepts but atlas cannot inspect (replay succeeds, reading the state back fails): a non-empty dev database must be refused and left byte-identical; an empty one must be handed back with no tables, indexes, views or triggers whether the command succeeded or failed; the migration directory must not be written by a replay (migrate diff may add one file and refresh the sum on success).",
    "SQLite file as dev database; commands that do not use the dev database for a given source (HCL on SQLite) are only required to leave it untouched."),
  "C15": ("exploration",
    "bounded-exhaustive enumeration over the exported type registries x parameter grid and over the differ universe states, each pushed through MarshalHCL/EvalHCL of the real codecs and compared by differ, formatted types, own structural comparison and byte fixpoint",
@@ -80,8 +80,8 @@ CHECKS = {
    "SQLite dev database; evolutions are drawn from the stated alphabet (not random schemas)."),
  "C19": ("exploration",
    "bounded-exhaustive enumeration of exclude patterns on a real SQLite engine against a reference of the glob semantics, and of all subsets of skippable change kinds through the three real differs against the filtered unskipped diff",
-   "(a) every pattern table[.child][type selector] from a 10 x 8 x 9 grid (thorough: every unordered pair of patterns) is applied through InspectSchema and InspectRealm on a real SQLite database with colliding names; every table, column, index, foreign key and check must be absent iff the reference (path.Match + selectors) says a pattern matches it. (b) for MySQL, PostgreSQL and SQLite differs a change set with every skippable kind at every nesting level is diffed under all 2^15 subsets of the policy kinds; the result must equal the unskipped diff with those kinds filtered out recursively (empty ModifyTable/ModifySchema vanish).",
-   "The fate of indexes/foreign keys built on an excluded column is unspecified by the documentation and not judged; the CLI end-to-end slice is covered by the CLI-driven checks."),
+   "(a) every pattern table[.child][type selector] from a 10 x 8 x 9 grid (thorough: every unordered pair of patterns) is applied through InspectSchema and InspectRealm on a real SQLite database with colliding names; every table, column, index, foreign key and check must be absent iff the reference (path.Match + selectors) says a pattern matches it. (b) for MySQL, PostgreSQL and SQLite differs a change set with every skippable kind at every nesting level is diffed under all 2^15 subsets of the policy kinds; the result must equal the unskipped diff with those kinds filtered out recursively (empty ModifyTable/ModifySchema vanish). (c) end to end: the real `atlas schema apply --auto-approve` on a SQLite file whose current and desired states disagree on 3 tables and 3 columns x every set of <=2 of 9 exclude patterns x {--exclude flags, env exclude} x {dev database, none} x desired state {HCL file, database URL}, and all 15 non-empty subsets of diff.skip {add_table, drop_table, add_column, drop_column} in a project file: a resource stays exactly as it was iff a pattern matches it / its change kind is skipped, everything else reaches the desired state, rows survive, a second apply is a no-op.",
+   "The fate of indexes/foreign keys built on an excluded column is unspecified by the documentation and not judged; the CLI slice uses one fixed pair of schemas."),
  "C20": ("exploration",
    "stateless exploration with Go's map-iteration order turned into a harness-chosen environment answer (runtime overlay): deviation-bounded enumeration of iteration starts per call site, hash seeds per process, operation sequences and declaration-order permutations, all compared byte for byte with the default run",
    "The check binary is linked against a Go runtime whose map-iteration start (per call site) and per-map hash seed are chosen by the harness. For 16 operations over the real planners/differs/codecs/formatters/directories the baseline output must be byte-identical under: every site shifted at once (14 values), one site at a time (bound 1; thorough: pairs of atlas sites, bound 2), worker processes with different hash seeds, and really random processes; planning the same change set twice in one process must give the same plan; every sequence of <=2 (thorough 3) operations must leave the last operation's output equal to its solo output in a fresh process; all permutations of top-level and index blocks (and reversed FK/check blocks) of an HCL source must give the same statements (as clause multisets) and the same SQLite catalogue. Every unordered pair of the 16 operations (and each with itself) is additionally run at the same time in a separate binary built with -race: outputs must equal the solo outputs and the race detector must stay silent.",
